@@ -7,6 +7,7 @@
     through parse_all, Parser.feed and iteration, with the statement's
     whole-stream oracle.
 """
+import array
 import itertools
 
 from .. import common
@@ -179,7 +180,7 @@ def check_string(mido, data, acc):
         ('parse_all', lambda: mido.parse_all(list(data))),
         ('Parser.feed+iter', lambda: _feed_iter(mido, data)),
         ('Parser(bytes)+get_message', lambda: _ctor_get(mido, data)),
-    )
+    ) + EXTRA_FORMS[(len(data) + sum(data)) % len(EXTRA_FORMS)](mido, data)
     first = None
     for name, fn in forms:
         acc.evals += 1
@@ -199,6 +200,53 @@ def check_string(mido, data, acc):
             acc.count('strings_yielding_messages')
     if any(b >= 0x80 for b in data):
         acc.nontrivial += 1
+
+
+def _feed_bytewise(mido, data):
+    p = mido.Parser()
+    for b in data:
+        p.feed_byte(b)
+    out = []
+    while p.pending():
+        out.append(p.get_message())
+    return out
+
+
+def _parse_first(mido, data):
+    # parse(): the first message or None; then the rest through a parser
+    # that was handed a generator
+    first = mido.parse(list(data))
+    rest = mido.parse_all(b for b in data)
+    if (first is None) != (not rest) or (rest and vars(first) != vars(rest[0])):
+        raise AssertionError(f'parse() gave {first!r}, parse_all()[0] differs')
+    return rest
+
+
+def _tokenizer(mido, data):
+    from mido.tokenizer import Tokenizer
+    toks = list(Tokenizer(memoryview(bytes(data))))
+    return [mido.Message.from_bytes(t) for t in toks]
+
+
+EXTRA_FORMS = (
+    lambda mido, data: (('parse_all(tuple)',
+                         lambda: mido.parse_all(tuple(data))),),
+    lambda mido, data: (('Parser.feed(memoryview)+iter', lambda: list(
+        _fed(mido.Parser(), memoryview(bytes(data))))),),
+    lambda mido, data: (('feed_byte+pending+get_message',
+                         lambda: _feed_bytewise(mido, data)),),
+    lambda mido, data: (('parse()+parse_all(generator)',
+                         lambda: _parse_first(mido, data)),),
+    lambda mido, data: (('Tokenizer(memoryview)+from_bytes',
+                         lambda: _tokenizer(mido, data)),),
+    lambda mido, data: (('Parser(array)+iter', lambda: list(
+        mido.Parser(array.array('B', data)))),),
+)
+
+
+def _fed(p, data):
+    p.feed(data)
+    return p
 
 
 def _feed_iter(mido, data):
